@@ -478,7 +478,10 @@ compute_image_info (pixman_image_t *image)
     case BITS:
 	if (image->bits.width == 1	&&
 	    image->bits.height == 1	&&
-	    image->common.repeat != PIXMAN_REPEAT_NONE)
+	    image->common.repeat != PIXMAN_REPEAT_NONE &&
+	    /* a convolution kernel need not sum to 1: not a solid colour */
+	    image->common.filter != PIXMAN_FILTER_CONVOLUTION &&
+	    image->common.filter != PIXMAN_FILTER_SEPARABLE_CONVOLUTION)
 	{
 	    code = PIXMAN_solid;
 	}
